@@ -667,10 +667,35 @@ class Checker:
                     n += 1
                     got = ev[2][argpos] if len(ev[2]) > argpos else '?'
                     elems = _coords(ev[4][argpos] if len(ev) > 4 and len(ev[4]) > argpos else got, d)
-                    same = (elems == ['%s.getPosition()[%d]' % (node_p, k) for k in range(d)] * 2) if elems is not None else (got == want)
+                    import re as _re16
+                    pos_txt = '%s.getPosition()' % node_p
+
+                    def _unwrap(t):
+                        # tm(<a tm>) and .copy() give a transform with the same coordinates
+                        prev = None
+                        while prev != t:
+                            prev = t
+                            t = t.replace('tm(%s)' % pos_txt, pos_txt).replace('%s.copy()' % pos_txt, pos_txt)
+                        return t
+                    if elems is not None:
+                        elems = [_unwrap(x) for x in elems]
+                    same = (elems == ['%s[%d]' % (pos_txt, k) for k in range(d)] * 2) if elems is not None else (_unwrap(got) == want)
+                    # ... and nothing rewrites the pose (or the copy the coordinates are read from) before the index sees it
+                    PURE = ('getPosition', 'copy', 'gTAA', 'gTM', 'gPos', 'gRot', 'getQuat', 'getTAA', 'getTM', 'flatten', 'tolist', 'inv', 'adjoint')
+                    for e2 in pth.events:
+                        if e2 is ev:
+                            break
+                        if e2[0] == 'call' and '.' in e2[1]:
+                            recv, attr = e2[1].rsplit('.', 1)
+                            if _unwrap(recv) == pos_txt and attr not in PURE:
+                                same = False
+                                got = 'read after %s() rewrote the pose: %s' % (e2[1], got)
+                        elif e2[0] == 'store' and _unwrap(e2[1].split('[')[0]).startswith(pos_txt):
+                            same = False
+                            got = 'read after the store %s: %s' % (e2[1], got)
                     rep.ob('R16.9', fi, '%s (dimension %d): coordinates = position twice' % (meth, d), same,
                            'a %d-dimensional tree is given the box %s; expected the point box of the node position %s (the index then stores / searches '
-                           'the wrong place or rejects the call)' % (d, got[:120], want[:60] + '...'), line=ev[3])
+                           'the wrong place or rejects the call)' % (d, got[:150], want[:60] + '...'), line=ev[3])
                     if meth == 'place':
                         rep.ob('R16.9', fi, 'place (dimension %d): the node itself is the stored object' % d, len(ev[2]) >= 3 and ev[2][2] == node_p,
                                'object stored in the index is %s' % (ev[2][2] if len(ev[2]) >= 3 else '?'), line=ev[3])
